@@ -84,5 +84,7 @@ lut_suite! { REG_ALL;
     rec_oetf: RecOetf, u8, "RecOetf", quick, quick;
     adobe: AdobeRgb, u8, "AdobeRgb", quick, quick;
     p3_gamma: P3Gamma, u8, "P3Gamma", quick, quick;
-    prophoto: ProPhotoRgb, u16, "ProPhotoRgb", quick, thorough;
+    // the three relational / exhaustive obligations of the 16-bit encoder are beyond CBMC within 900 s (65536-entry table, two lookups):
+    // tier `unreached` = declared, never run, reported as not decided (lib/props.py C05 not_decided)
+    prophoto: ProPhotoRgb, u16, "ProPhotoRgb", quick, unreached;
 }
